@@ -113,7 +113,9 @@ func (p *parseContext) Stop(err error, branch *parseContext) bool {
 		p.deepestError = err
 		p.deepestErrorDepth = maxInt(branch.PeekingLexer.Cursor(), branch.deepestErrorDepth)
 	}
-	if !p.hasInfiniteLookahead() && branch.PeekingLexer.Cursor() > p.PeekingLexer.Cursor()+p.lookahead {
+	// Compare the distance, not the sum: cursor+lookahead overflows for very large lookahead values
+	// (eg. UseLookahead(math.MaxInt)), which then behaved like a lookahead of zero.
+	if !p.hasInfiniteLookahead() && branch.PeekingLexer.Cursor()-p.PeekingLexer.Cursor() > p.lookahead {
 		p.Accept(branch)
 		return true
 	}
